@@ -27,7 +27,7 @@ def gen(rng, tier):
     n = 160 if tier == "quick" else 5000
     for t in range(n):
         fmt = FORMATS[t % len(FORMATS)]
-        c = gtio.gen_content(rng, allow_half_missing=not fmt.startswith(".pgen"), many_alleles=0.12)
+        c = gtio.gen_content(rng, allow_half_missing=not fmt.startswith(".pgen"), many_alleles=0.12, medium=0.06)
         p = len(c["variants"])
         c["fmt"] = fmt
         c["wchunk"] = rng.choice([None, 1, 2, max(p, 1), p + 2])
